@@ -91,7 +91,6 @@ def main(argv=None):
     assert len(ids) == len(set(ids)), "duplicate obligation ids"
     bytask = {t["id"]: t for t in tasks}
     print(f"[{a.prop}] tier={a.tier} tasks={len(tasks)}", flush=True)
-    results = common.run_tasks(tasks, a.j)
 
     # ---- ledger: obligations that are discharged on the unchanged tree must still be generated
     ledger_path = os.path.join(common.ROOT, "vf", "ledger.json")
@@ -100,6 +99,13 @@ def main(argv=None):
     except FileNotFoundError:
         ledger = {}
     key = f"{a.prop}/{a.tier}"
+    # a ledger obligation has to be decided on every run, so the speed of the machine must not decide it: its time limits are
+    # multiplied by common.LEDGER_BUDGET_SCALE (see vf/engine/paths.py BUDGET_SCALE).  Obligations outside the ledger keep the plain
+    # budget: running out of it is reported as partial / NOT-DECIDED, never as an alarm.
+    in_ledger = set(ledger.get(key, []))
+    for t in tasks:
+        t["ledger"] = t["id"] in in_ledger
+    results = common.run_tasks(tasks, a.j)
     lost = []
     if not a.only and key in ledger:
         lost = [i for i in ledger[key] if i not in bytask]
@@ -235,6 +241,8 @@ def main(argv=None):
         "paths": paths, "verification_conditions": vcs, "solver_s": round(by_solver_s, 2),
         "by_backend": {"z3-4.13 (python API), obligations": n_disch, "VCs z3 4.13 left open that were discharged by": ext_vcs},
         "bounded_tasks": n_bounded, "evaluations": evals, "distinct_nontrivial": distinct,
+        "time_limits": (f"obligations of the ledger (vf/ledger.json, {len(in_ledger)} for this check) run with every time limit x{common.LEDGER_BUDGET_SCALE:g}; "
+                        "others with the plain limit, and running out of it is partial / not decided, never a violation"),
         "rule": getattr(P, "RULE", ""),
         "explanation": getattr(P, "EXPLANATION", ""),
         "undecided": len(undecided) + len(lost), "checker_errors": len(errors),
@@ -246,7 +254,9 @@ def main(argv=None):
         "known_findings_matched": kf_lines, "known_exclusions_used": sorted(known_used),
         "samples": samples or [{"note": "no samples"}],
         "tasks": [{"id": r["id"], "kind": r["kind"], "status": r.get("status"), "paths": r.get("paths"),
-                   "vcs": r.get("vcs"), "wall_s": r.get("task_wall_s")} for r in results],
+                   "vcs": r.get("vcs"), "wall_s": r.get("task_wall_s"),
+                   **({"budget_s": r["budget_s"], "slowest_solver_query_s": r.get("max_check_s"), "solver_unknowns": r.get("n_unknown")}
+                      if r.get("budget_s") else {})} for r in results],
     }
     if not cov["evaluations"]:
         cov.pop("evaluations"); cov.pop("distinct_nontrivial")
